@@ -9,6 +9,8 @@ package jsonparser
 // with a non-negative attachment count; it never panics (all index/slice/nil obligations are generated and discharged).
 //@ func (*Parser).parseHeader
 //@   requires p.json != nil
+//@   modifies maxmake()
+//@   ensures maxmake() <= max(old(maxmake()), len(data) + 2) [C10.hdr.alloc]
 //@   ensures err == nil ==> header != nil && header.Attachments >= 0 [C10.hdr.att]
 //@   ensures err == nil && header.Type != 5 && header.Type != 6 ==> header.Attachments == 0 [C10.hdr.att.nonbinary]
 
@@ -24,6 +26,7 @@ package jsonparser
 //@   callsite finish skip
 //@     update fin = fin + 1
 //@   ensures p.r != nil ==> recOK(p.r) [C10.add.progress]
+//@   ensures maxmake() <= max(old(maxmake()), len(data) + 2) [C10.add.alloc]
 //@   ensures fin <= 1 [C01.add.once]
 //@   ensures old(p.r) != nil && old(p.r.remaining) == 1 ==> fin == 1 && p.r == nil && result == nil [C01.add.complete]
 //@   ensures old(p.r) != nil && old(p.r.remaining) > 1 ==> fin == 0 && p.r == old(p.r) && p.r.remaining == old(p.r.remaining) - 1 && len(p.r.buffers) == old(len(p.r.buffers)) + 1 && result == nil [C01.add.collect]
